@@ -544,3 +544,46 @@ def inline_predicates(func: FuncInfo, known: list[tuple[ast.AST, bool]], depth: 
 		expr = S().visit(copy.deepcopy(rets[0].value))
 		out.extend(inline_predicates(g, conjuncts(expr, pol), depth - 1))
 	return out
+
+
+def inline_simple_calls(func: FuncInfo, e: ast.AST, depth: int = 2) -> ast.AST:
+	"""copy of expression e in which every call of a same-class helper (or nested / module function) whose body is a single `return <expr>` is replaced
+	by that expression with the helper's parameters substituted by the call arguments (`self._node_dsn(symbol.node)` ->
+	`ModuleDSN.full_joined(symbol.node.module_path, symbol.node.full_path)`)"""
+	import copy
+	if depth <= 0:
+		return e
+
+	def helper_of(c: ast.Call):
+		g = None
+		if isinstance(c.func, ast.Attribute) and isinstance(c.func.value, ast.Name) and c.func.value.id in ('self', 'cls') and func.cls is not None:
+			g = func.cls.method(c.func.attr)
+		elif isinstance(c.func, ast.Name):
+			g = func.module.functions.get(f'{func.qualname}.<locals>.{c.func.id}') or func.module.functions.get(c.func.id)
+		if g is None:
+			return None
+		body = [s_ for s_ in g.node.body if not (isinstance(s_, ast.Expr) and isinstance(s_.value, ast.Constant))]
+		if len(body) != 1 or not isinstance(body[0], ast.Return) or body[0].value is None:
+			return None
+		return g, body[0].value
+
+	class T(ast.NodeTransformer):
+		def visit_Call(self, node: ast.Call):
+			self.generic_visit(node)
+			h = helper_of(node)
+			if h is None:
+				return node
+			g, ret = h
+			params = [a.arg for a in g.node.args.posonlyargs + g.node.args.args]
+			if params and params[0] in ('self', 'cls') and isinstance(node.func, ast.Attribute):
+				params = params[1:]
+			binding = {p_: a for p_, a in zip(params, node.args) if not isinstance(a, ast.Starred)}
+			binding.update({kw.arg: kw.value for kw in node.keywords if kw.arg})
+
+			class S(ast.NodeTransformer):
+				def visit_Name(self, n: ast.Name):
+					if isinstance(n.ctx, ast.Load) and n.id in binding:
+						return copy.deepcopy(binding[n.id])
+					return n
+			return inline_simple_calls(g, S().visit(copy.deepcopy(ret)), depth - 1)
+	return T().visit(copy.deepcopy(e))
